@@ -61,6 +61,17 @@ CLAIMED = {
         note=BASE_NOTE + "Modelled, not verified: unicode.IsSpace (White_Space list), utf8 decoding. Pathname expansion disabled as the property says.",
         technique="Coq lemmas on the splitter model + differential correspondence + splitting specification extracted from Coq as oracle",
         design="6 C14"),
+    "C16": dict(
+        text=("Model of Glob (component loop, literal fast path, directory scan with the hidden-name rule, separator search) over an abstract "
+              "file-system tree, and an independent component-wise specification built on C12's denotation. Proved: the sorting step returns an "
+              "ascending permutation. The full statement glob_model = glob_spec is stated in Props/C16.v but NOT yet proved; it is decided on "
+              "every run by evaluating the extracted specification on the implementation's answers over random materialised trees (files, "
+              "directories, dot files, dangling symlinks, metacharacter and multi-byte names) with patterns generalised from the tree, and by "
+              "model correspondence; the harness also Lstat()s every returned path."),
+        note=BASE_NOTE + "Modelled, not verified: the OS file system (os.Lstat/Stat/Open/Readdirnames as path resolution on a tree; no symlinks "
+             "other than dangling ones, no permissions, no concurrent modification).",
+        technique="Coq lemmas on the Glob model + differential correspondence on materialised trees + specification extracted from Coq as oracle",
+        design="6 C16"),
 }
 
 PENDING_REASON = "check under construction in this session; not claimed until its theorems and correspondence run green"
